@@ -61,6 +61,7 @@ impl DeletionParser {
     }
 
     pub fn parse(query: &str, data_model: &DataModel) -> Result<DeletionParser, Error> {
+        super::check_nesting_depth(query)?;
         let parse = match PestParser::parse(Rule::deletion, query) {
             Err(e) => {
                 let message = format!("{}", e);
